@@ -486,3 +486,298 @@ Section SemProofs.
       try contradiction; [apply Hn|reflexivity].
   Qed.
 End SemProofs.
+
+(* ================================================================ totality *)
+Lemma mapM_total {A B} (f : A -> result B) l :
+  (forall x, In x l -> exists y, f x = Ok y) -> exists l', mapM f l = Ok l'.
+Proof.
+  induction l as [|x xs IH]; intros H; simpl; [eexists; reflexivity|].
+  destruct (H x (or_introl eq_refl)) as (y & ->).
+  destruct IH as (ys & ->); [intros; apply H; right; assumption|]. eexists; reflexivity.
+Qed.
+
+Section TotalProofs.
+  Context {opid prim : Type}.
+  Variable opid_eqb : opid -> opid -> bool.
+  Hypothesis opid_eqb_spec : forall a b, opid_eqb a b = true <-> a = b.
+  Variable inst : opid -> list ty -> result (ctx opid prim).
+  Variable name : opid -> string.
+
+  Notation node := (node opid prim).
+  Notation graph := (graph opid prim).
+  Notation ctx := (ctx opid prim).
+  Notation rgraph := (rgraph opid prim).
+  Notation key := (@key opid).
+  Notation key_eqb := (key_eqb opid_eqb).
+  Notation key_name := (key_name name).
+  Notation mem := (mem opid_eqb).
+  Notation lookup := (lookup opid_eqb).
+  Notation glue_node := (@glue_node opid prim opid_eqb).
+  Notation glue_graph := (@glue_graph opid prim opid_eqb).
+  Notation glue_ctx := (@glue_ctx opid prim opid_eqb).
+  Notation glue_key := (glue_key opid_eqb inst name).
+  Notation process := (process opid_eqb inst).
+  Notation visit := (visit opid_eqb).
+  Notation discover := (discover opid_eqb inst).
+  Notation pass := (pass opid_eqb inst name).
+  Notation ctx_keys := (@ctx_keys opid prim).
+
+  Lemma mem_In (k : key) l : mem k l = true <-> In k l.
+  Proof.
+    unfold Instantiate.mem. rewrite existsb_exists. split.
+    - intros (x & Hx & E). apply (key_eqb_eq opid_eqb opid_eqb_spec) in E. subst; exact Hx.
+    - intros H. exists k. split; [exact H|apply (key_eqb_refl opid_eqb opid_eqb_spec)].
+  Qed.
+  Lemma mem_not_In (k : key) l : mem k l = false -> ~ In k l.
+  Proof. intros H Hin. apply mem_In in Hin. congruence. Qed.
+
+  (* the keys a body needs are all in [p] *)
+  Definition body_keys_in (k : key) (p : list key) : Prop :=
+    exists body ks, inst (fst k) (snd k) = Ok body /\ ctx_keys body = Ok ks /\
+                    forall k', In k' ks -> In k' p.
+  (* a gluing order: every key comes after the keys its body needs, and only once *)
+  Inductive topo : list key -> Prop :=
+  | topo_nil : topo []
+  | topo_snoc p k : topo p -> body_keys_in k p -> ~ In k p -> topo (p ++ [k]).
+
+  (* ---------------------------------------------------------------- discovery *)
+  Definition WF (s : @dstate opid) : Prop := topo (done s) /\ incl (done s) (seen s).
+  Definition ext (s s' : @dstate opid) : Prop :=
+    incl (seen s) (seen s') /\
+    exists d, done s' = done s ++ d /\ forall x, In x d -> ~ In x (seen s).
+  Definition rec_spec (rec : key -> dstate -> result dstate) : Prop :=
+    forall k s s', rec k s = Ok s' -> WF s -> In k (seen s) -> ~ In k (done s) ->
+      WF s' /\ incl (seen s) (seen s') /\
+      exists d, done s' = done s ++ d ++ [k] /\ forall x, In x d -> ~ In x (seen s).
+
+  Lemma ext_refl s : ext s s.
+  Proof. split; [apply incl_refl|]. exists []. rewrite app_nil_r. split; [reflexivity|intros x []]. Qed.
+  Lemma ext_trans s1 s2 s3 : ext s1 s2 -> ext s2 s3 -> ext s1 s3.
+  Proof.
+    intros [H1 (d1 & E1 & F1)] [H2 (d2 & E2 & F2)]. split; [eapply incl_tran; eauto|].
+    exists (d1 ++ d2). rewrite E2, E1, app_assoc. split; [reflexivity|].
+    intros x Hx. apply in_app_iff in Hx as [Hx|Hx]; [auto|]. intros Hin. apply (F2 x Hx). auto.
+  Qed.
+  Lemma ext_done s s' x : ext s s' -> In x (done s) -> In x (done s').
+  Proof. intros [_ (d & E & _)] H. rewrite E. apply in_app_iff; left; exact H. Qed.
+
+  Lemma visit_spec rec : rec_spec rec ->
+    forall k s s', visit rec k s = Ok s' -> WF s -> WF s' /\ ext s s' /\ In k (done s').
+  Proof.
+    intros Hrec k s s' H Hwf. unfold Instantiate.visit in H.
+    destruct (mem k (seen s)) eqn:Es.
+    - destruct (mem k (done s)) eqn:Ed; [|discriminate]. inversion H; subst.
+      split; [exact Hwf|split; [apply ext_refl|apply mem_In; exact Ed]].
+    - apply mem_not_In in Es. destruct Hwf as [Ht Hi].
+      assert (WF (mkD (seen s ++ [k]) (done s))) as Hwf0.
+      { split; [exact Ht|]. intros x Hx. apply in_app_iff; left; apply Hi; exact Hx. }
+      assert (In k (seen (mkD (seen s ++ [k]) (done s)))) as Hin0.
+      { apply in_app_iff; right; left; reflexivity. }
+      assert (~ In k (done (mkD (seen s ++ [k]) (done s)))) as Hnd0.
+      { intros Hin. apply Es. apply Hi; exact Hin. }
+      destruct (Hrec _ _ _ H Hwf0 Hin0 Hnd0) as (Hwf' & Hs & d & E & F); cbn [seen done] in *.
+      split; [exact Hwf'|split; [split|]].
+      * intros x Hx. apply Hs. apply in_app_iff; left; exact Hx.
+      * exists (d ++ [k]). split; [exact E|]. intros x Hx. apply in_app_iff in Hx as [Hx|[<-|[]]]; [|exact Es].
+        intros Hin. apply (F x Hx). apply in_app_iff; left; exact Hin.
+      * rewrite E, !in_app_iff. right; right; left; reflexivity.
+  Qed.
+
+  Lemma fold_visit_spec rec : rec_spec rec ->
+    forall ks s s', foldM (fun s k => visit rec k s) ks (Ok s) = Ok s' -> WF s ->
+      WF s' /\ ext s s' /\ forall k, In k ks -> In k (done s').
+  Proof.
+    intros Hrec ks. induction ks as [|k ks IH]; intros s s' H Hwf.
+    - inversion H; subst. split; [exact Hwf|split; [apply ext_refl|intros k []]].
+    - unfold foldM in H. cbn [fold_left bind] in H. fold (foldM (fun s k => visit rec k s) ks (visit rec k s)) in H.
+      destruct (visit rec k s) as [s1| | |] eqn:E;
+        try (rewrite foldM_notok in H by (intros; discriminate); discriminate).
+      destruct (visit_spec rec Hrec _ _ _ E Hwf) as (Hwf1 & He1 & Hk).
+      destruct (IH _ _ H Hwf1) as (Hwf' & He & Hks).
+      split; [exact Hwf'|split; [eapply ext_trans; eauto|]].
+      intros k' [<-|Hk']; [eapply ext_done; eauto|auto].
+  Qed.
+
+  Lemma process_spec fuel : rec_spec (process fuel).
+  Proof.
+    induction fuel as [|f IH]; intros k s s' H Hwf Hk Hnd; cbn [Instantiate.process] in H; [discriminate|].
+    apply bind_ok in H as (body & Hb & H). apply bind_ok in H as (ks & Hks & H).
+    apply bind_ok in H as (s1 & Hf & H). inversion H; subst; clear H. cbn [seen done].
+    destruct (fold_visit_spec _ IH ks s s1 Hf Hwf) as ([Ht1 Hi1] & [Hs1 (d & E & F)] & Hin).
+    split; [split|split].
+    - constructor; [exact Ht1| |].
+      + exists body, ks. auto.
+      + rewrite E. intros Hx. apply in_app_iff in Hx as [Hx|Hx]; [auto|]. apply (F k Hx Hk).
+    - intros x Hx. apply in_app_iff in Hx as [Hx|[<-|[]]]; auto.
+    - exact Hs1.
+    - exists d. rewrite E, app_assoc. auto.
+  Qed.
+
+  Lemma discover_topo fuel c order :
+    discover fuel c = Ok order ->
+    topo order /\ exists ks, ctx_keys c = Ok ks /\ forall k, In k ks -> In k order.
+  Proof.
+    unfold Instantiate.discover. intros H.
+    apply bind_ok in H as (ks & Hks & H). apply bind_ok in H as (s & Hf & H). inversion H; subst.
+    destruct (fold_visit_spec _ (process_spec fuel) ks _ s Hf) as ([Ht _] & _ & Hin).
+    { split; [constructor|intros x []]. }
+    split; [exact Ht|]. exists ks. auto.
+  Qed.
+
+  (* ---------------------------------------------------------------- gluing succeeds *)
+  Definition good (res : list rgraph) (ch : @cache opid) (k : key) : Prop :=
+    exists gi callee, lookup k ch = Some gi /\ nth_error res (N.to_nat gi) = Some callee /\
+                      input_types (r_graph callee) = snd k.
+
+  Lemma nodes_keys_spec (G : list node) ns ks :
+    nodes_keys G ns = Ok ks ->
+    forall o deps t, In (NCustom o deps t) ns ->
+                     exists tys, dep_types G deps = Ok tys /\ In (o, tys) ks.
+  Proof.
+    revert ks; induction ns as [|n ns IH]; intros ks H o deps t Hin; [destruct Hin|].
+    destruct n as [t0|p d g t0|gc d t0|o0 d t0]; cbn [nodes_keys] in H;
+      try (destruct Hin as [Hin|Hin]; [discriminate|eapply IH; eauto]).
+    apply bind_ok in H as (tys & Ht & H). apply bind_ok in H as (ks' & Hk & H). inversion H; subst.
+    destruct Hin as [Hin|Hin].
+    - inversion Hin; subst. exists tys. split; [exact Ht|left; reflexivity].
+    - destruct (IH _ Hk _ _ _ Hin) as (tys' & H1 & H2). exists tys'. split; [exact H1|right; exact H2].
+  Qed.
+
+  Lemma ctx_keys_spec (c : ctx) ks g :
+    ctx_keys c = Ok ks -> In g (c_graphs c) ->
+    exists ks', graph_keys g = Ok ks' /\ incl ks' ks.
+  Proof.
+    unfold Instantiate.ctx_keys. intros H Hg. apply bind_ok in H as (kss & Hm & H). inversion H; subst. clear H.
+    apply mapM_Forall2 in Hm. revert Hg. induction Hm as [|g0 ks0 gs kss Hg0 Hgs IH]; intros Hg; [destruct Hg|].
+    destruct Hg as [<-|Hg].
+    - exists ks0. split; [exact Hg0|]. intros x Hx. simpl. apply in_app_iff; left; exact Hx.
+    - destruct (IH Hg) as (ks' & H1 & H2). exists ks'. split; [exact H1|].
+      intros x Hx. simpl. apply in_app_iff; right; apply H2; exact Hx.
+  Qed.
+
+  Lemma glue_ctx_total res ch (c : ctx) ks :
+    ctx_keys c = Ok ks -> (forall k, In k ks -> good res ch k) ->
+    exists gs, glue_ctx ch res (c_graphs c) = Ok gs.
+  Proof.
+    intros Hks Hgood. unfold Instantiate.glue_ctx. apply mapM_total. intros g Hg.
+    destruct (ctx_keys_spec c ks g Hks Hg) as (ks' & Hk' & Hincl).
+    unfold Instantiate.glue_graph.
+    destruct (mapM_total (glue_node ch res (N.of_nat (length res)) (g_nodes g)) (g_nodes g)) as (ns & ->).
+    - intros n Hn. destruct n as [t|p d gd t|gc d t|o d t]; cbn [Instantiate.glue_node]; try (eexists; reflexivity).
+      destruct (nodes_keys_spec _ _ _ Hk' _ _ _ Hn) as (tys & -> & Hin). cbn [bind].
+      destruct (Hgood _ (Hincl _ Hin)) as (gi & callee & -> & -> & Hty). cbn [snd] in Hty.
+      rewrite Hty. rewrite (proj2 (list_ty_eqb_eq tys tys) eq_refl). eexists; reflexivity.
+    - eexists; reflexivity.
+  Qed.
+
+  Lemma glue_node_input ch res off G n n' :
+    glue_node ch res off G n = Ok n' ->
+    match n' with NInput t => [t] | _ => [] end = match n with NInput t => [t] | _ => [] end.
+  Proof.
+    destruct n as [t|p d gd t|gc d t|o d t]; cbn [Instantiate.glue_node]; intros H;
+      try (inversion H; subst; reflexivity).
+    apply bind_ok in H as (tys & _ & H).
+    destruct (lookup _ ch); [|discriminate]. destruct (nth_error res _); [|discriminate].
+    destruct (list_eqb _ _ _); [|discriminate]. inversion H; reflexivity.
+  Qed.
+
+  Lemma glue_nodes_inputs ch res off G (l l' : list node) :
+    Forall2 (fun n n' => glue_node ch res off G n = Ok n') l l' ->
+    flat_map (fun n => match n with NInput t => [t] | _ => [] end) l' =
+    flat_map (fun n => match n with NInput t => [t] | _ => [] end) l.
+  Proof.
+    induction 1 as [|n n' l l' Hn Hl IH]; simpl; [reflexivity|].
+    rewrite IH. f_equal. eapply glue_node_input; eauto.
+  Qed.
+
+  Lemma glue_graph_inputs ch res off g g' :
+    glue_graph ch res off g = Ok g' -> input_types g' = input_types g.
+  Proof.
+    unfold Instantiate.glue_graph. intros H. apply bind_ok in H as (ns & Hns & H). inversion H; subst.
+    apply mapM_Forall2 in Hns. unfold input_types; cbn [g_nodes].
+    eapply glue_nodes_inputs; eauto.
+  Qed.
+
+  Lemma nth_name_at i nm (gs : list graph) g :
+    nth_error gs i = Some g -> nth_error (name_at i nm gs) i = Some (mkR (Some nm) g).
+  Proof.
+    revert i; induction gs as [|g0 r IH]; intros [|i] H; simpl in *; try discriminate.
+    - inversion H; reflexivity.
+    - apply IH; exact H.
+  Qed.
+
+  Lemma good_extend res ch k extra k0 gi0 :
+    good res ch k -> k <> k0 -> good (res ++ extra) ((k0, gi0) :: ch) k.
+  Proof.
+    intros (gi & callee & Hl & Hn & Ht) Hne. exists gi, callee. repeat split; auto.
+    - cbn [Instantiate.lookup]. destruct (key_eqb k k0) eqn:E; [|exact Hl].
+      apply (key_eqb_eq opid_eqb opid_eqb_spec) in E. contradiction.
+    - rewrite nth_error_app1; [exact Hn|]. apply nth_error_Some. congruence.
+  Qed.
+
+  Lemma fold_glue_total order :
+    topo order -> (forall k, In k order -> sig_ok inst k) ->
+    (forall k1 k2, In k1 order -> In k2 order -> key_name k1 = key_name k2 -> k1 = k2) ->
+    exists res ch, fold_left glue_key order (Ok ([], [])) = Ok (res, ch) /\
+                   names res = map key_name order /\
+                   forall k, In k order -> good res ch k.
+  Proof.
+    induction 1 as [|p k Hp IH Hbody Hnin]; intros Hsig Hinj.
+    - exists [], []. repeat split; auto. intros k [].
+    - destruct IH as (res & ch & Hf & Hn & Hgood).
+      { intros; apply Hsig; apply in_app_iff; left; assumption. }
+      { intros k1 k2 H1 H2. apply Hinj; apply in_app_iff; left; assumption. }
+      rewrite fold_left_app, Hf. cbn [fold_left].
+      destruct Hbody as (body & ks & Hb & Hks & Hin).
+      destruct (glue_ctx_total res ch body ks Hks) as (gs & Hg); [intros; apply Hgood; auto|].
+      destruct (Hsig k) as (body' & gm & Hb' & Hgm & Hty); [apply in_app_iff; right; left; reflexivity|].
+      rewrite Hb in Hb'. inversion Hb'; subst body'; clear Hb'.
+      assert (Hlen : length gs = length (c_graphs body)).
+      { unfold Instantiate.glue_ctx in Hg. apply mapM_Forall2, Forall2_len in Hg. congruence. }
+      assert (Hm : (N.to_nat (c_main body) < length gs)%nat).
+      { rewrite Hlen. apply nth_error_Some. congruence. }
+      unfold Instantiate.glue_key at 1. cbn [bind]. rewrite Hb; cbn [bind]. rewrite Hg; cbn [bind].
+      rewrite (proj2 (Nat.ltb_lt _ _) Hm). cbn [negb].
+      assert (existsb (String.eqb (key_name k)) (names res) = false) as ->.
+      { destruct (existsb _ (names res)) eqn:E; [|reflexivity]. exfalso.
+        apply existsb_exists in E as (x & Hx & E). apply String.eqb_eq in E. subst x.
+        rewrite Hn in Hx. apply in_map_iff in Hx as (k' & Hk' & Hin').
+        assert (k' = k) as ->; [|contradiction].
+        apply Hinj; [apply in_app_iff; left; exact Hin'|apply in_app_iff; right; left; reflexivity|exact Hk']. }
+      eexists _, _. split; [reflexivity|]. split.
+      + rewrite names_app, names_name_at, Hn, map_app by exact Hm. reflexivity.
+      + intros k' Hk'. apply in_app_iff in Hk' as [Hk'|[<-|[]]].
+        * apply good_extend; [apply Hgood; exact Hk'|]. intros ->; contradiction.
+        * (* the new entry *)
+          unfold Instantiate.glue_ctx in Hg. apply mapM_Forall2 in Hg.
+          pose proof (nth_error_Forall2 _ _ _ (N.to_nat (c_main body)) Hg) as Hnth.
+          rewrite Hgm in Hnth. destruct (nth_error gs (N.to_nat (c_main body))) as [g'|] eqn:Eg; [|contradiction].
+          exists (N.of_nat (length res) + c_main body)%N, (mkR (Some (key_name k)) g').
+          repeat split.
+          -- cbn [Instantiate.lookup]. rewrite (key_eqb_refl opid_eqb opid_eqb_spec). reflexivity.
+          -- rewrite N2Nat.inj_add, Nat2N.id, nth_error_app2 by lia.
+             replace (length res + N.to_nat (c_main body) - length res)%nat with (N.to_nat (c_main body)) by lia.
+             apply nth_name_at; exact Eg.
+          -- cbn [r_graph]. rewrite (glue_graph_inputs _ _ _ _ _ Hnth). exact Hty.
+  Qed.
+
+  Theorem inst_pass_total fuel (c : ctx) order :
+    (N.to_nat (c_main c) < length (c_graphs c))%nat ->
+    discover fuel c = Ok order ->
+    (forall k, In k order -> sig_ok inst k) ->
+    (forall k1 k2, In k1 order -> In k2 order -> key_name k1 = key_name k2 -> k1 = k2) ->
+    exists r, pass fuel c = Ok (r, order) /\
+              names (rc_graphs r) = map key_name order /\ NoDup (names (rc_graphs r)).
+  Proof.
+    intros Hmain Hd Hsig Hinj.
+    destruct (discover_topo _ _ _ Hd) as (Ht & ks & Hks & Hin).
+    destruct (fold_glue_total order Ht Hsig Hinj) as (res & ch & Hf & Hn & Hgood).
+    destruct (glue_ctx_total res ch c ks Hks) as (gs & Hg); [intros; apply Hgood; auto|].
+    assert (Hlen : length gs = length (c_graphs c)).
+    { unfold Instantiate.glue_ctx in Hg. apply mapM_Forall2, Forall2_len in Hg. congruence. }
+    assert (Hp : pass fuel c = Ok (mkRctx (res ++ anon gs) (N.of_nat (length res) + c_main c)%N, order)).
+    { unfold Instantiate.pass. rewrite Hd; cbn [bind]. rewrite Hf; cbn [bind]. rewrite Hg; cbn [bind].
+      rewrite Hlen, (proj2 (Nat.ltb_lt _ _) Hmain). reflexivity. }
+    eexists. split; [exact Hp|]. exact (pass_names_nodup opid_eqb inst name _ _ _ _ Hp).
+  Qed.
+End TotalProofs.
